@@ -17,5 +17,11 @@ pub proof fn every_opcode_the_compiler_can_emit_has_a_handler(op: OpCode) ensure
 //@lemma name=every_dispatch_arm_names_an_opcode
 pub proof fn every_dispatch_arm_names_an_opcode() ensures ARMS_NAMING_NO_VARIANT == 0 {}
 
+// A `debug_assert!` argument is evaluated in the checked configuration only: a side effect inside it makes the two
+// configurations behave differently (C10). Decided for every debug assertion of the crate, by text.
+//@debugasserts dir=yarel/src
+//@lemma name=debug_assertions_have_no_side_effects props=C10
+pub proof fn debug_assertions_have_no_side_effects() ensures DEBUG_ASSERTS_WITH_SIDE_EFFECTS == 0 {}
+
 } // verus!
 fn main() {}
